@@ -650,6 +650,24 @@ pub fn random_hist(ops: &[Value], len: usize, rng: &mut Rng) -> Vec<Value> {
         }
         h.push(pick.clone());
     }
+    // how the history ends: half of them with a bulk operation on the state they built up (purge, or a resize where the
+    // type has one), so that bulk paths meet long lists and not only the nearly empty caches purge leaves behind mid-way
+    match rng.below(4) {
+        0 => {
+            if let Some(o) = real.iter().find(|o| o["op"] == "purge") {
+                h.push((*o).clone());
+            }
+        }
+        1 => {
+            let rs: Vec<&&Value> = real.iter().filter(|o| o["op"] == "resize").collect();
+            if !rs.is_empty() {
+                h.push((**rs[rng.below(rs.len() as u64) as usize]).clone());
+            } else if let Some(o) = real.iter().find(|o| o["op"] == "purge") {
+                h.push((*o).clone());
+            }
+        }
+        _ => {}
+    }
     h
 }
 
